@@ -79,3 +79,25 @@ func vh_C14_write_write_read_close() {
 		vAssert(vRespID(resp[2]) == 3, "the CLOSE completes last")
 	}
 }
+
+// two handles: the close of one waits for (all) earlier reads/writes; requests
+// on the other handle keep flowing
+//
+//verif:tier thorough
+func vh_C14_two_handles() {
+	vErrKinds = 0
+	svr := vNewServer(false, "")
+	f := &vMFile{name: "/o", data: []byte{0, 0, 0, 0}, yield: true}
+	g := &vMFile{name: "/p", data: []byte{5, 5, 5, 5}, yield: true}
+	svr.openFiles["1"] = f
+	svr.openFiles["2"] = g
+	resp := vPipelineOpt(svr, []requestPacket{
+		&sshFxpWritePacket{ID: 1, Handle: "1", Offset: 0, Length: 1, Data: []byte{9}},
+		&sshFxpReadPacket{ID: 2, Handle: "2", Offset: 1, Len: 2},
+		&sshFxpClosePacket{ID: 3, Handle: "1"},
+		&sshFxpReadPacket{ID: 4, Handle: "2", Offset: 0, Len: 1},
+	}, false)
+	vAssert(f.closed == 1 && f.inAtClose == 0 && f.afterClose == 0, "handle 1: closed once, nothing in flight at or after Close")
+	vAssert(g.closed == 0 && g.reads == 2, "handle 2 untouched by the close, both reads ran")
+	vAssert(len(resp) == 4, "four responses")
+}
